@@ -270,7 +270,7 @@ OBLIGATIONS = [
        symbolic='eight category bits of one group (all 256 selections; the other categories selected)', enumerated='document (6), category group (3)',
        bounds={'quick': '6 pool documents x 3 groups of 8 categories', 'thorough': 'same'}),
     Ob(id='C05.a', fn=ob_a, title='export under an arbitrary selected-category set == oracle filter of the cell model',
-       shard_of=_shard_a, shards={'quick': 28, 'thorough': 28}, budget_s={'quick': 170, 'thorough': 1800}, untrace=UNTRACE,
+       shard_of=_shard_a, shards={'quick': 36, 'thorough': 36}, budget_s={'quick': 170, 'thorough': 1800}, untrace=UNTRACE,
        witnesses=[{'d': 0, 'b': [True] * N}, {'d': 1, 'b': [i % 2 == 0 for i in range(N)]}], min_confirmed=500,
        symbolic='token_categories: 37 symbolic booleans (all 2^37 selections per document)', enumerated='document selector',
        bounds={'quick': '9 mini documents (<= 9 categories asked each; two with the same text under different categories in one document; kern/text/dynam/harm/fing/mxhm/unknown spines; split+join; chord; signatures; tandems; comments)',
